@@ -404,7 +404,7 @@ func runC06(tier string, r *Result) {
 	if tier != "quick" {
 		depth = 2
 	}
-	ins := []string{"type", "method", "error", "T", "a", "(", ")", ":", ",", "->", "?", "[]", "[string]", "[int]", "int", "§", "interface", "#"}
+	ins := []string{"type", "method", "error", "T", "a", "(", ")", ":", ",", "->", "?", "[]", "[string]", "[int]", "int", "§", "interface", "#", "#\n", "# c\n", "#  \n", "#\r\n"}
 	for ti, d := range treeSet(depth) {
 		if !r.mine(ti) {
 			continue
